@@ -85,7 +85,7 @@ Proof.
   intros Hb. induction fuel as [|f IH]; intros vals Hlen Hv; [lia|].
   destruct vals as [|v0 vr].
   - exists []. split; [reflexivity|]. intros rest [|f'] Hf; [simpl in Hf; lia|]. reflexivity.
-  - cbn [pack_all]. clear Ev vals. remember (v0 :: vr) as vals eqn:Ev.
+  - cbn [pack_all]. remember (v0 :: vr) as vals eqn:Ev.
     destruct (Nat.leb_spec 8 (length vals)) as [H8|H8].
     + (* a full block followed by the rest *)
       assert (Hl8 : length (firstn 8 vals) = 8%nat) by (rewrite firstn_length; lia).
